@@ -15,8 +15,9 @@ package route
 //@   ensures held(mu)
 //@ extern func (mu *sync.RWMutex) Unlock() ()
 //@   requires held(mu)
-//@   modifies held(mu)
+//@   modifies held(mu), ghostInt(mu, "sections")
 //@   ensures !held(mu)
+//@   ensures ghostInt(mu, "sections") == old(ghostInt(mu, "sections")) + 1
 //@ extern func (mu *sync.RWMutex) RLock() ()
 //@   requires !held(mu)
 //@   modifies held(mu)
@@ -49,7 +50,7 @@ package route
 //@ spec func matchesAt(t *routetable, kk int, path string) bool = mapKeyPresent(t.m, kk) && pathMatch(entryAt(t, kk).Pattern, path)
 //@ func (t *routetable) Match(path string) (r *Route)
 //@   requires t != nil && t.m != nil && !held(&t.lock) && mapValuesNonNil(t.m)
-//@   modifies held(&t.lock)
+//@   modifies held(&t.lock), ghostInt(&t.lock, "sections")
 //@   local k string
 //@   local v *Route
 //@   local n int
@@ -79,7 +80,7 @@ package route
 
 //@ func (t *routetable) Del(pattern string) (err error)
 //@   requires tableOK(t)
-//@   modifies held(&t.lock), t.l, t.l[:cap(t.l)], t.saves, t.saves[:cap(t.saves)], t.removes, t.removes[:cap(t.removes)], mapAll(t.m), all()
+//@   modifies held(&t.lock), ghostInt(&t.lock, "sections"), t.l, t.l[:cap(t.l)], t.saves, t.saves[:cap(t.saves)], t.removes, t.removes[:cap(t.removes)], mapAll(t.m), all()
 //@   local rangeindex int
 //@   loop 0: modifies
 //@   loop 0: invariant -1 <= rangeindex && rangeindex <= len(t.l) && sameHdr(t.l, old(t.l))
@@ -95,9 +96,13 @@ package route
 //@   ensures ghostInt(p, "flushes") == old(ghostInt(p, "flushes")) + 1
 //@ func (t *routetable) Flush() (err error)
 //@   requires t != nil && !held(&t.lock) && t.provider != nil && len(t.saves) <= 1<<30 && len(t.removes) <= 1<<30
-//@   modifies held(&t.lock), t.saves, t.removes, ghostInt(t.provider, "flushes")
+//@   modifies held(&t.lock), ghostInt(&t.lock, "sections"), t.saves, t.removes, ghostInt(t.provider, "flushes")
 //@   ensures !held(&t.lock)
 //@   ensures old(len(t.saves)) + old(len(t.removes)) == 0 ==> err == nil && ghostInt(t.provider, "flushes") == old(ghostInt(t.provider, "flushes"))
 //@   ensures old(len(t.saves)) + old(len(t.removes)) != 0 ==> ghostInt(t.provider, "flushes") == old(ghostInt(t.provider, "flushes")) + 1
 //@   ensures err == nil ==> len(t.saves) == 0 && len(t.removes) == 0
 //@   ensures err != nil ==> len(t.saves) == old(len(t.saves)) && len(t.removes) == old(len(t.removes))
+// one critical section: the pending lists are read, handed to the provider and cleared without the table lock being
+// released in between (an edit that arrives while the provider writes would otherwise be cleared without having been written)
+//@   assert[call:route.Provider.Flush] held(&t.lock)
+//@   ensures ghostInt(&t.lock, "sections") == old(ghostInt(&t.lock, "sections")) + 1
